@@ -294,4 +294,12 @@ func CutValueOr(name string, real uint64) uint64 { return real }
 // Natively a no-op: the real function runs.
 func Summarize(suffix string, fn any) {}
 
+func AssumeEq(a, b []byte)     { Assume(eq(a, b)) }
+func EqBytes(a, b []byte) bool { return eq(a, b) }
+func SameBytes(a, b []byte) bool { return eq(a, b) }
+func And(a, b bool) bool       { return a && b }
+func Or(a, b bool) bool        { return a || b }
+func Not(a bool) bool          { return !a }
+func Implies(a, b bool) bool   { return !a || b }
+
 func OpaqueString() string { return "<opaque>" }
